@@ -63,13 +63,24 @@ pub enum ModSpec {
     /// HoldOff + Invert together (+ Random with the seed): the game marks them incompatible, the library applies them
     /// in a fixed order, which every path must share
     HoIn(Option<f64>),
+    /// mode-less (intermode) mods given by their acronyms and handed over *by reference* (`&GameModsIntermode`)
+    IntermodeRef(&'static str),
 }
 
 impl ModSpec {
+    /// Whether the mod set contains the given acronym (only meaningful for `IntermodeRef`).
+    pub fn has_acronym(&self, a: &str) -> bool {
+        matches!(self, ModSpec::IntermodeRef(s) if s.as_bytes().chunks(2).any(|c| c == a.as_bytes()))
+    }
+
     pub fn build(&self, mode: GameMode) -> GameMods {
         let mut l = LazerMods::new();
         match self {
             ModSpec::Bits(b) => return GameMods::from(*b),
+            ModSpec::IntermodeRef(a) => {
+                let im = rosu_pp::model::mods::rosu_mods::GameModsIntermode::from_acronyms(a);
+                return GameMods::from(&im);
+            }
             ModSpec::HoldOff => l.insert(GameMod::HoldOffMania(HoldOffMania {})),
             ModSpec::Invert => l.insert(GameMod::InvertMania(InvertMania {})),
             ModSpec::Random(seed) => match mode {
